@@ -4,7 +4,7 @@ import shutil
 import subprocess
 
 import common
-from impl import engine, histgen
+from impl import engine, histgen, nodekinds
 
 ASSUMPTIONS = [
     "task bodies are deterministic functions of their declared inputs and module text and write only their declared products",
@@ -25,6 +25,9 @@ ASSUMPTIONS = [
     "generated projects also contain hashed Python values built from several input files read at import (tuple / list / positions [0][1],[1][0] of one "
     "container) with edits that exchange the files' contents (equal digit counts: the separator-less join of finding F3 is replayed as its own witness), "
     "an untracked fail-flag file that makes a body raise before writing, and a stream of projects passing a value through a hashed in-memory node",
+    "some histories drive the generated project through the programmatic interface build(tasks=[all task functions]) with tasks that declare "
+    "dependencies as parameter defaults, in @task(kwargs=…), or both on one function; stream nodekinds: dependencies / products declared as Path, "
+    "PathNode, plain UPath and UPath('file://…') under fixed and changing PYTHONHASHSEED (oracle only; findings F61 / F62 classified narrowly)",
 ]
 EDITS = ["write", "write", "revert", "rewrite_same", "touch", "delete_input", "bump", "revert_module", "tamper", "delete_product",
          "rewire", "add_task", "remove_task", "flag", "flag", "swap", "swap"]
@@ -236,11 +239,21 @@ def _memhash_run(proj):
     return obs
 
 
-def memhash_stream(ctx):
+def memhash_prepare(ctx):
+    return [_memhash_project(ctx.rng) for _ in range(ctx.scale(6, 60))]
+
+
+def memhash_execute(projs):
     from concurrent.futures import ThreadPoolExecutor
-    projs = [_memhash_project(ctx.rng) for _ in range(ctx.scale(6, 60))]
     with ThreadPoolExecutor(max_workers=6) as ex:
-        allobs = list(ex.map(_memhash_run, projs))
+        return list(ex.map(_memhash_run, projs))
+
+
+def memhash_stream(ctx, projs=None, allobs=None):
+    if projs is None:
+        projs = memhash_prepare(ctx)
+    if allobs is None:
+        allobs = memhash_execute(projs)
     for proj, obs in zip(projs, allobs):
         edited = any(isinstance(s, list) and s[0] == "edit" for s in proj["steps"])
         ctx.case(["memhash", proj["files"], proj["inputs"], proj["steps"]], edited and len(obs) >= 2,
@@ -285,10 +298,21 @@ def f3_witness(ctx):
 def histories(ctx):
     rng = ctx.rng
     hs = []
-    for i in range(ctx.scale(70, 800)):
+    for i in range(ctx.scale(58, 680)):
         spec = engine.gen_spec(rng, nt=(2, 7), after_p=0.2, after_needs_prods=True, user_markers=True, marks=(("skip", 0.05),),
-                               link_p=0.3, dirprod_p=0.3, hashed_p=0.25, bag_p=0.3, subdir_p=0.3, pygroup_p=0.25)
+                               link_p=0.3, dirprod_p=0.3, hashed_p=0.25, bag_p=0.3, subdir_p=0.3, pygroup_p=0.25, kwsplit_p=0.4)
         hs.append(histgen.random_history(rng, spec, rng.randint(4, 10), EDITS, CFGS, final_build={}))
+    # the same kind of project driven through the PROGRAMMATIC interface: every build of the history is
+    # pytask.build(tasks=[all task functions of the imported task modules]); declaration styles per task: parameter defaults only,
+    # @task(kwargs=…) only, or both on one function (kw_split)
+    for i in range(ctx.scale(14, 140)):
+        spec = engine.gen_spec(rng, nt=(2, 6), after_p=0.15, after_needs_prods=True, user_markers=True, dens=0.9,
+                               styles=("default", "kwargs", "kwargs", "annotated", "return"),
+                               link_p=0.2, hashed_p=0.2, bag_p=0.2, pygroup_p=0.15, kwsplit_p=0.8)
+        h = histgen.random_history(rng, spec, rng.randint(4, 9), EDITS, CFGS, final_build={})
+        h["as_tasks"] = True
+        h["tag"] = "prog"
+        hs.append(h)
     return hs
 
 
@@ -303,12 +327,20 @@ def run(ctx):
                 "identical rewrite / touch / delete input, bump / revert module, tamper / delete product, rewire dependency, add / remove task), final plain build; "
                 "oracle = product bytes vs F evaluated from scratch along the DAG; non-trivial = ≥2 builds, ≥1 edit and a later successful build that executed something")
     f11b_witness(ctx)
-    f3_witness(ctx)
-    memhash_stream(ctx)
+    from concurrent.futures import ThreadPoolExecutor
+    mh, nk = memhash_prepare(ctx), nodekinds.prepare(ctx)
+    with ThreadPoolExecutor(max_workers=2) as ex:          # the two oracle-only streams build their projects side by side
+        f_mh, f_nk = ex.submit(memhash_execute, mh), ex.submit(nodekinds.execute, nk)
+        f3_witness(ctx)
+        mh_obs, nk_obs = f_mh.result(), f_nk.result()
+    memhash_stream(ctx, mh, mh_obs)
+    nodekinds.stream(ctx, "C02", nk, nk_obs)
     engine.run_campaign(ctx, histories(ctx), oracle, nontrivial=nontrivial, sel_eval=engine.sel_eval, rotate_seeds=True)
 
 
 def replay(ctx, obj):
+    if obj.get("input", {}).get("nodekinds"):
+        return nodekinds.replay("C02", obj["input"]["nodekinds"])
     if obj.get("input", {}).get("memhash"):
         proj = obj["input"]["memhash"]
         obs = _memhash_run(proj)
